@@ -764,6 +764,15 @@ func (this *fileDecompressTask) call() (int, uint64, error) {
 	}
 
 	if removeSource == true {
+		// The output must be completely written and closed before the input is deleted.
+		// The deferred call does not check for error.
+		if output != io.WriteCloser(os.Stdout) {
+			if err := output.Close(); err != nil {
+				fmt.Printf("Cannot close output file '%s': %v\n", outputName, err)
+				return kanzi.ERR_WRITE_FILE, uint64(decoded), err
+			}
+		}
+
 		// Close input prior to deletion
 		// Close will return an error if it has already been called.
 		// The deferred call does not check for error.
